@@ -2,6 +2,7 @@ package main
 
 import (
 	"fmt"
+	"regexp"
 	"go/ast"
 	"go/token"
 	"go/types"
@@ -134,8 +135,18 @@ func (e *Engine) fieldSlot(st *types.Named, idx int) int64 {
 	return s
 }
 
+var canonRe = regexp.MustCompile(`\b(byte|rune|any)\b`)
+
 func (e *Engine) typeID(t types.Type) int64 {
-	k := types.TypeString(t, nil)
+	k := canonRe.ReplaceAllStringFunc(types.TypeString(t, nil), func(m string) string {
+		switch m {
+		case "byte":
+			return "uint8"
+		case "rune":
+			return "int32"
+		}
+		return "interface{}"
+	})
 	if id, ok := e.typeIDs[k]; ok {
 		return id
 	}
@@ -182,6 +193,9 @@ func (e *Engine) loadSpecLibs() error {
 		for _, form := range forms {
 			name, sig, ok := parseFunSig(form)
 			if ok {
+				if i := strings.IndexByte(name, '.'); i > 0 {
+					specPkgs[name[:i]] = true
+				}
 				th := ""
 				if parts := strings.SplitN(base, ".", 2); len(parts) == 2 {
 					th = parts[1]
@@ -335,7 +349,10 @@ func (e *Engine) prelude(th Theory, libs []string) []string {
 		p = append(p, "(declare-fun dyntype ((_ BitVec 64)) Int)", "(declare-fun boxed-slice ((_ BitVec 64)) SliceBV)")
 	} else {
 		p = append(p, "(declare-fun dyntype (Int) Int)", "(declare-fun boxed-slice (Int) Slice)",
+			"(declare-fun idx (Int Int) Int)",
+			"(assert (forall ((b Int) (i Int)) (! (= (idx b i) (+ b i)) :pattern ((idx b i)))))",
 			"(declare-fun errInner (Int) Int)",
+			"(assert (forall ((e Int)) (! (=> (and (>= e 0) (< e 1048576)) (= (errInner e) 0)) :pattern ((errInner e)))))",
 			"(define-fun errIs ((e Int) (t Int)) Bool (or (= e t) (and (not (= (errInner e) 0)) (or (= (errInner e) t) (and (not (= (errInner (errInner e)) 0)) (or (= (errInner (errInner e)) t) (= (errInner (errInner (errInner e))) t)))))))")
 	}
 	suffix := ".int"
@@ -388,7 +405,7 @@ func (e *Engine) TranslateFunc(key string) (res *funcResult) {
 	}()
 	th := Theory{bv: fc.Theory == "bv"}
 	t := &fnTrans{eng: e, th: th, fc: fc, fn: fn, globals: map[string]*Cell{}, cellTyp: map[string]types.Type{},
-		oldSnap: map[string]*Cell{}, callSeq: map[string]int{}, assumptions: map[string]bool{}, usedSpecFuncs: map[string]bool{}, usedAsserts: map[string]bool{}}
+		oldSnap: map[string]*Cell{}, callSeq: map[string]int{}, assumptions: map[string]bool{}, usedSpecFuncs: map[string]bool{}, usedAsserts: map[string]bool{}, constGlobals: map[string]int64{}, outside: map[string]int{}}
 	t.proc = &Proc{Name: key, Props: fc.Props}
 	pre := t.proc.NewBlock("pre")
 	t.proc.Entry = pre
@@ -489,6 +506,9 @@ func (e *Engine) TranslateFunc(key string) (res *funcResult) {
 		if n == "allocTop" {
 			pre.Assume(And(th.ALe(th.AddrLit(4096), c), th.ALt(c, th.AddrLit(addrLimit/2))))
 		}
+		if id, ok := t.constGlobals[n]; ok {
+			pre.Assume(Eq(c, th.AddrLit(id)))
+		}
 		if n == "objTop" {
 			pre.Assume(And(th.ALe(th.AddrLit(256), c), th.ALt(c, th.AddrLit(1<<15))))
 		}
@@ -504,20 +524,47 @@ func (e *Engine) TranslateFunc(key string) (res *funcResult) {
 	}
 	pre.Goto(entry)
 	t.proc.RangeFact = func(c *Cell) Expr {
+		if c.Name == "H_$rdData" || c.Name == "H_$wrData" || c.Name == "H_$xxhData" {
+			// ghost byte sequences hold bytes (also inside spec-library macros)
+			r := &Var{"r!g", th.Addr()}
+			k := &Var{"k!g", SInt}
+			e := Select(Select(c, r), k)
+			return &Quant{Forall: true, Vars: []*Var{r, k}, Body: And(ILe(IntLit(0), e), ILt(e, IntLit(256))), Pats: [][]Expr{{e}}}
+		}
+		if strings.HasPrefix(c.Name, "M_") || strings.HasPrefix(c.Name, "H_") {
+			return nil // element invariants are emitted per read (ElemInv)
+		}
 		typ, ok := t.cellTyp[c.Name]
 		if !ok {
 			return nil
 		}
-		if strings.HasPrefix(c.Name, "M_") || strings.HasPrefix(c.Name, "H_") {
-			// typed memory / heap field: every element satisfies the element type's invariant
-			a := &Var{"a!r", th.Addr()}
-			inv := t.typeInv(Select(c, a), typ)
-			if inv == nil {
-				return nil
-			}
-			return &Quant{Forall: true, Vars: []*Var{a}, Body: inv, Pats: [][]Expr{{Select(c, a)}}}
-		}
 		return t.typeInv(c, typ)
+	}
+	t.proc.ElemInv = func(c *Cell, sel Expr) Expr {
+		if th.bv {
+			return nil
+		}
+		if c.Name == "H_$rdData" || c.Name == "H_$wrData" || c.Name == "H_$xxhData" {
+			if sel.Sort() == SInt {
+				return And(ILe(IntLit(0), sel), ILt(sel, IntLit(256)))
+			}
+			return nil
+		}
+		name := strings.TrimPrefix(c.Name, "old$")
+		if i := strings.Index(name, "pre$"); i >= 0 {
+			name = strings.TrimPrefix(name[i:], "pre$")
+			if j := strings.LastIndex(name, "$"); j > 0 {
+				name = name[:j]
+			}
+		}
+		typ, ok := t.cellTyp[name]
+		if !ok || !(strings.HasPrefix(name, "M_") || strings.HasPrefix(name, "H_")) {
+			return nil
+		}
+		if sel.Sort() != th.SortOf(typ) {
+			return nil
+		}
+		return t.typeInv(sel, typ)
 	}
 	libs := append([]string{}, fc.Uses...)
 	obls, err := GenVCs(t.proc, e.prelude(th, libs))
